@@ -34,6 +34,120 @@ def spawner_fn(facts):
     return fn_of(m[0])
 
 
+def alternatives(fn, e, depth=0):
+    """What `e` can stand for when it projects fields out of a local with several definitions that are aggregates
+    (a result carried in a private enum / struct / tuple: `match outcome { Window { start, end } => ..}` with `outcome`
+    assigned on two paths): the projection applied to each definition it applies to.  [e] when e is not such a
+    projection."""
+    return [x for _, x in alternatives_tagged(fn, e, depth)]
+
+
+def alternatives_tagged(fn, e, depth=0, tag=()):
+    """Like alternatives, each result with the choices made: ((local, definition site), ..).  Two expressions resolved
+    from the same carrier belong together when their tags agree on every local both mention."""
+    from cfg import strip_casts
+    e0 = e
+    chain = []
+    x = strip_casts(e)
+    while isinstance(x, tuple) and x and x[0] in ("field", "downcast", "ref", "deref"):
+        if x[0] == "field":
+            chain.append(("f", x[2], x[3] if len(x) > 3 else None))
+        elif x[0] == "downcast":
+            chain.append(("d", str(x[2])))
+        x = strip_casts(x[1])
+    if depth > 5 or not chain or not (isinstance(x, tuple) and x and x[0] == "local"):
+        return [(tag, e0)]
+    chain.reverse()
+
+    def whole(d, tg, dd=0):
+        d = strip_casts(d)
+        if d[0] == "local" and dd < 5:
+            r = []
+            for bi_, si_, y in fn.def_exprs(d[1]):
+                r += whole(y, tg + ((d[1], (bi_, si_)),), dd + 1)
+            return r
+        return [(tg, d)]
+    results = []
+    for tg, d in whole(x, tag):
+        cur = [d]
+        for step in chain:
+            nxt = []
+            for c in cur:
+                c = strip_casts(c)
+                while isinstance(c, tuple) and c and c[0] in ("ref", "deref"):
+                    c = strip_casts(c[1])
+                if step[0] == "d":
+                    if c[0] == "agg":
+                        if str(c[1]).endswith("::" + step[1]):
+                            nxt.append(c)
+                    else:
+                        nxt.append(("downcast", c, step[1]))
+                else:
+                    name = step[1]
+                    if c[0] == "agg" and name in c[2]:
+                        nxt.append(c[2][name])
+                    elif c[0] == "tuple" and name.isdigit() and int(name) < len(c[1]):
+                        nxt.append(c[1][int(name)])
+                    else:
+                        nxt.append(("field", c, name, step[2]))
+            cur = nxt
+        results += [(tg, c) for c in cur]
+    out = []
+    for tg, r in results:
+        if r == e0 or r == strip_casts(e0):
+            out.append((tg, r))
+        else:
+            out += alternatives_tagged(fn, r, depth + 1, tg)
+    return out or [(tag, e0)]
+
+
+def map_expr(e, f):
+    """Rebuild an expression tree top-down: f(node) -> replacement or None (descend)."""
+    if not isinstance(e, tuple) or not e:
+        return e
+    r = f(e)
+    if r is not None:
+        return r
+    out = []
+    for x in e:
+        if isinstance(x, tuple):
+            if x and isinstance(x[0], str):
+                out.append(map_expr(x, f))
+            else:
+                out.append(tuple(map_expr(y, f) if isinstance(y, tuple) else y for y in x))
+        elif isinstance(x, dict):
+            out.append({k: map_expr(v, f) for k, v in x.items()})
+        else:
+            out.append(x)
+    return tuple(out)
+
+
+def resolve_under(fn, e, tag):
+    """e with every projection out of a multi-definition carrier replaced by the projection of the definition chosen in
+    `tag`, and Option helpers on a known variant folded (`Some(x).unwrap_or(d)` = x, `None.unwrap_or(d)` = d)."""
+    from cfg import strip_casts
+
+    def f(node):
+        if node[0] in ("field", "downcast"):
+            alts = [x for t_, x in alternatives_tagged(fn, node) if tags_agree(t_, tag) and tags_agree(tag, t_)]
+            if len(alts) == 1 and alts[0] != node and alts[0] != strip_casts(node):
+                return resolve_under(fn, alts[0], tag)
+        if node[0] == "call" and str(node[1]).endswith("::unwrap_or") and len(node[2]) == 2:
+            a0 = resolve_under(fn, node[2][0], tag)
+            a0s = strip_casts(a0)
+            if a0s[0] == "agg" and str(a0s[1]).endswith("Option::Some"):
+                return a0s[2].get("0")
+            if a0s[0] == "agg" and str(a0s[1]).endswith("Option::None"):
+                return resolve_under(fn, node[2][1], tag)
+        return None
+    return map_expr(e, f)
+
+
+def tags_agree(t1, t2):
+    d1 = dict(t1)
+    return all(d1.get(l, s_) == s_ for l, s_ in t2)
+
+
 def find_fn(facts, crate, suffix):
     """Unique body whose path ends with `suffix` (e.g. '::tick_inner')."""
     m = [b for b in facts.bodies_of(crate) if b["path"].endswith(suffix)]
